@@ -110,7 +110,9 @@ func ValidKeyName(name string) bool {
 		return false
 	}
 	for _, r := range name {
-		if unicode.IsSpace(r) {
+		// no Unicode space (documented for names) and no ASCII control character (documented for every
+		// byte of a message, of which the name becomes a part)
+		if unicode.IsSpace(r) || r < 0x20 {
 			return false
 		}
 	}
